@@ -1182,9 +1182,23 @@ class _ObserverRun:
         for kind, c, name in copies:
             if kind == 0:
                 continue          # nothing is demanded of a shallow copy's independence
+            try:
+                before = bytes(m)
+            except Exception as e:  # noqa: BLE001
+                raise Violation("C14.Q3", f"bytes-raises-{type(e).__name__}", f"before mutating a {name}: {e}")
             what = self.mutate(c, cls)
             steps += 1
             trace.append(f"mutated {name}: {what}")
+            # directly: the original encodes as it did before its copy was touched (the twin comparison below is
+            # blind to state that the original, the twin and the copy all share - a per-class singleton, say)
+            try:
+                after = bytes(m)
+            except Exception as e:  # noqa: BLE001
+                raise Violation("C14.Q3", f"bytes-raises-{type(e).__name__}", f"after mutating a {name} ({what}): {e}")
+            if after != before:
+                raise Violation("C14.Q3", "original-changed",
+                                f"after mutating a {name} ({what}) the original encodes to {after.hex()[:120]}, before it was "
+                                f"{before.hex()[:120]}")
             self._q1(m, twin, cls, "C14.Q3", f"after mutating a {name} ({what})")
         # ---- latent state: the observers must not have left anything behind that shows only later.
         #      Apply the SAME mutation burst to the observed original and to the never-observed twin
